@@ -427,11 +427,10 @@ def want_name(comm_b, cmdlines):
                 ext.append(base)
         if not ext:
             out.add(comm)
-        elif ascii_:
+        else:
+            # the statement counts *bytes* (that is what the kernel cuts at), whatever characters they make up
             out.add(ext[0])
             applied = True
-        else:
-            out.update({comm, ext[0]})
     return out, applied
 
 
@@ -676,7 +675,7 @@ def run_case(case, acc):
     if r_name[0] == "exc":
         viols.append((f"name_exception:{type(r_name[1]).__name__}", f"name() raised {r_name[1]!r} comm={comm_b!r}"))
     elif r_name[1] not in wname:
-        feat = "15_byte_comm" if len(comm_b) == 15 else "short_comm"
+        feat = ("15_byte_comm" + ("" if all(c < 0x80 for c in comm_b) else ":non_ascii")) if len(comm_b) == 15 else "short_comm"
         viols.append((f"name_wrong:{feat}", f"name() -> {r_name[1]!r} want {sorted(wname)!r} comm={comm_b!r} "
                                             f"cmdline={str(r_cmd[1])[:200]}"))
     elif applied and len(wname) == 1:
